@@ -169,7 +169,7 @@ class Inliner:
         name = recv = cls = None
         if isinstance(fn, ast.Name):
             name = fn.id
-            g = f.module.functions.get(name)
+            g = dict.get(f.module.functions, name)
             if g is None or g.cls is not None or g.parent is not None:
                 return None
         elif isinstance(fn, ast.Attribute) and isinstance(fn.value, ast.Name):
